@@ -203,4 +203,10 @@ Next == \/ \E n \in PNames, sh \in Shapes : OfferDeclare(n, sh)
         \/ \E w \in Workers : PoolStep(w)
 
 Spec == Init /\ [][Next]_vars
+
+\* Liveness of a batch: with every worker weakly fair (a busy worker eventually finishes or fails, an idle one eventually takes the
+\* next task) the batch ends - with all results or with the error.  On the implementation side a batch that does not end is a
+\* runaway program (its fresh interpreter is given three attempts).
+FairSpec == Spec /\ \A w \in Workers : WF_vars(PoolStep(w))
+C15_BatchEnds == (Part = "pool") => <>Done
 =============================================================================
